@@ -4,6 +4,7 @@ C10 — property theorems: bounds lemmas on the index-arithmetic models of `Mode
 -/
 import Mahotas.Proofs.C10MiscLbp
 import Mahotas.Proofs.C10MiscDist
+import Mahotas.Proofs.C10MiscTerm
 import Mahotas.Proofs.C10Odometer
 import Mahotas.Proofs.C10Interp
 import Mahotas.Proofs.C10IWavelet
@@ -1075,6 +1076,28 @@ theorem C10_close_holes_seeding_in_bounds :
 
 example : (chSeedAccesses [2, 3]).map (·.pos) =
     [[0, 0], [1, 0], [0, 1], [1, 1], [0, 2], [1, 2], [0, 0], [0, 2], [1, 0], [1, 2]] ∧ chSeedAccesses [0, 4] = [] := by decide
+
+
+/-- **C10, `distance_multi`: the queue loop TERMINATES** (the item left open in round 3). For every shape (any rank), every image,
+every list of deltas and every initial content of `res` (one cell per pixel: `same_shape(array, res)` is a native guard): a queue
+entry is pushed only together with a store that strictly lowers a cell of `res` to a squared distance (a non-negative integer,
+`*rpos > next_dist` ⇒ `*rpos = next_dist`), so `Σ max(res[p], 0)` drops by at least one per push and `while (!dist_q.empty())` ends
+within `(pushes of the first phase) + Σ max(res[p], 0)` pops — with every budget at least that large the model's queue runs empty.
+Together with `C10_distance_multi_in_bounds` (every dereference inside, for every budget) and `C10_position_queue_in_bounds`
+(the queue's own index arithmetic) the kernel is covered; `neighbours_delta` still needs a non-empty neighbourhood
+(`C10_distance_multi_needs_neighbour`). -/
+theorem C10_distance_multi_terminates (shape : List Nat) (img : List Bool) (res : List Int) (deltas : List (List Int))
+    (hlen : res.length = shapeSize shape) (fuel : Nat)
+    (hf : (Mahotas.C10Misc.dmFirst true shape img deltas (List.range (shapeSize shape)) res).2.2.length +
+      Mahotas.C10Misc.resMass (Mahotas.C10Misc.dmFirst true shape img deltas (List.range (shapeSize shape)) res).2.1 ≤ fuel) :
+    (Mahotas.C10Misc.dmRun true shape img res deltas fuel).2.2 = true :=
+  Mahotas.C10Misc.dmRun_terminates shape img res deltas hlen fuel hf
+
+/-- non-vacuity: a 1×4 line with one background pixel, `res` = 100 everywhere, deltas ±1: budget 3 + 6 = 9 suffices (it ends after
+3 pops); with budget 1 the queue is not yet empty -/
+example : (Mahotas.C10Misc.dmRun true [1, 4] [false, true, true, true] [100, 100, 100, 100] [[0, -1], [0, 2]] 20).2 = ([0, 1, 4, 9], true) ∧
+    (Mahotas.C10Misc.dmRun true [1, 4] [false, true, true, true] [100, 100, 100, 100] [[0, -1], [0, 2]] 1).2.2 = false := by
+  decide +kernel
 
 /-- **C10, the stack flood of `close_holes` and `remove_fake_regmin_max`: accesses AND termination.**
 `while (!stack.empty()) { p = stack.top_pop(); for every neighbour delta: npos = p + delta; if (validposition(npos) && available(npos))
